@@ -16,6 +16,8 @@ REIT_ORIGINS = (set, frozenset, A.Set, A.MutableSet, A.KeysView, A.ValuesView, A
 QUASI_ORIGINS = (A.Iterable, A.Container, A.Reversible)
 MAP_ORIGINS = (dict, A.Mapping, A.MutableMapping, collections.defaultdict, collections.OrderedDict, collections.ChainMap)
 
+STANDIN = [0]      # incremented whenever a hint was translated to a model hint of the same MEANING but another code shape
+
 VALE_REGISTRY: dict[int, list] = {}        # id(validator object) -> model validator (kept alive by VALE_KEEP)
 VALE_KEEP: list = []
 
@@ -59,14 +61,31 @@ def hint_model(h, reg: Registry):
     if hasattr(h, '__supertype__'):                     # NewType
         return hint_model(h.__supertype__, reg)
     if isinstance(h, type) and not isinstance(h, types.GenericAlias):
-        if getattr(h, '_is_protocol', False):
-            # a protocol is generated like a user generic without pseudo-superclasses:
-            # `isinstance(<assignment expression>, P)` — not modelled yet (see DESIGN §13.2)
-            raise NotImplementedError(repr(h))
-        if any(T.get_origin(b) is not None for b in getattr(h, '__orig_bases__', ())):
-            raise NotImplementedError(repr(h))          # user generics (unerased pseudo-superclasses) are not modelled
+        if getattr(h, '_is_protocol', False) or any(T.get_origin(b) is not None for b in getattr(h, '__orig_bases__', ())):
+            # protocols and unsubscripted user generics: `isinstance(<assignment expression>, C)` (and the erased
+            # pseudo-superclasses' origins, which C subclasses anyway). MEANING = the class; the code SHAPE is not modelled.
+            STANDIN[0] += 1
+            return ['shallow', reg.id(h)]
         return ['cls', reg.id(h)]
     origin, args = T.get_origin(h), T.get_args(h)
+    if isinstance(origin, type) and hasattr(origin, '__orig_bases__') \
+            and origin.__module__ not in ('typing', 'collections.abc', 'collections', 'builtins'):
+        # subscripted user generic `Box[int]` with `class Box(list[T])`: an instance of Box that satisfies the
+        # unerased pseudo-superclass `list[int]`. MEANING = Annotated[list[int], IsInstance[Box]]; the code SHAPE
+        # (isinstance first, then the pseudo-superclasses on the variable) is not modelled.
+        STANDIN[0] += 1
+        params = getattr(origin, '__parameters__', None) or tuple(
+            dict.fromkeys(p for b in origin.__orig_bases__ for p in getattr(b, '__parameters__', ())))
+        sub = dict(zip(params, args))
+        bases = [b for b in origin.__orig_bases__ if T.get_origin(b) not in (None, T.Generic, T.Protocol)]
+        if not bases:
+            return ['shallow', reg.id(origin)]
+        if len(bases) > 1:
+            raise NotImplementedError(repr(h))
+        bp = getattr(bases[0], '__parameters__', ())
+        base = bases[0][tuple(sub.get(p, T.Any) for p in bp)] if bp else bases[0]
+        bm = hint_model(base, reg)
+        return ['ann', bm, ['inst', str(reg.id(origin))]]
     if is_union(h):
         return union_model([hint_model(a, reg) for a in union_members(h)])
     if origin is T.Literal:
